@@ -99,6 +99,9 @@ type Case struct {
 	BatchSize int      `json:"batch_size,omitempty"` // vist: scan batch size
 	TS        uint64   `json:"ts,omitempty"`         // vist: read timestamp
 	VisInj    []VisInj `json:"visinj,omitempty"`     // vist: safe-point updates at chosen instants
+	Script2   []Op     `json:"script2,omitempty"`    // gc custom mode: more leftovers written after the first pass ...
+	SP2       uint64   `json:"sp2,omitempty"`        // ... and a SECOND pass with this safe point on the same store, lock resolver and Runner object
+	Raw       bool     `json:"raw,omitempty"`        // gc: no ScanLock normalisation for this case (the store's own answer)
 	Barrier   uint64   `json:"barrier,omitempty"`    // gc mode full: a GC barrier that blocks the txn safe point at this ts
 }
 
@@ -155,6 +158,7 @@ type Read struct {
 	Res string `json:"res"` // V<hex> | N (not exist) | gc | pdtimeout | err:<text>
 }
 type Result struct {
+	next        *Result     // second pass of a two-pass case
 	Case        Case        `json:"case"`
 	SetupErr    string      `json:"setup_err,omitempty"`
 	Pre         []Rec       `json:"pre,omitempty"`
@@ -208,6 +212,7 @@ type world struct {
 	visOn  bool
 	visN   int
 	visInj []VisInj
+	n1     bool // normalisation N1 active for this case (ScanLock window + limit applied by the gate)
 	n2     bool // normalisation N2 active: split ResolveLock{TxnInfos} into single-transaction resolves
 	raw    bool // no normalisation at all (probe)
 }
@@ -407,20 +412,23 @@ func (g *gate) SendRequest(ctx context.Context, addr string, req *tikvrpc.Reques
 			return resp, nil
 		}
 		raw := len(sr.Locks)
-		// N1: TiKV's contract
-		var locks []*kvrpcpb.LockInfo
-		for _, l := range sr.Locks {
-			if bytes.Compare(l.Key, r.StartKey) < 0 {
-				continue
+		// N1 (switchable): TiKV's contract
+		locks := sr.Locks
+		if w.n1 {
+			locks = nil
+			for _, l := range sr.Locks {
+				if bytes.Compare(l.Key, r.StartKey) < 0 {
+					continue
+				}
+				if len(r.EndKey) > 0 && bytes.Compare(l.Key, r.EndKey) >= 0 {
+					continue
+				}
+				locks = append(locks, l)
 			}
-			if len(r.EndKey) > 0 && bytes.Compare(l.Key, r.EndKey) >= 0 {
-				continue
+			sort.Slice(locks, func(i, j int) bool { return bytes.Compare(locks[i].Key, locks[j].Key) < 0 })
+			if r.Limit > 0 && len(locks) > int(r.Limit) {
+				locks = locks[:r.Limit]
 			}
-			locks = append(locks, l)
-		}
-		sort.Slice(locks, func(i, j int) bool { return bytes.Compare(locks[i].Key, locks[j].Key) < 0 })
-		if r.Limit > 0 && len(locks) > int(r.Limit) {
-			locks = locks[:r.Limit]
 		}
 		dbg := w.rpc.MvccStore.(mocktikv.MVCCDebugger)
 		keys := make([]string, 0, len(locks))
@@ -506,8 +514,8 @@ func (g *gate) SendRequest(ctx context.Context, addr string, req *tikvrpc.Reques
 		r := req.DeleteRange()
 		var resp *tikvrpc.Response
 		var err error
-		if r.NotifyOnly {
-			// N3: epoch check through a harmless request, then answer ourselves
+		if r.NotifyOnly && n3Active {
+			// N3 (switchable): epoch check through a harmless request, then answer ourselves
 			probe := tikvrpc.NewRequest(tikvrpc.CmdScanLock, &kvrpcpb.ScanLockRequest{MaxVersion: 0}, req.Context)
 			presp, perr := g.Client.SendRequest(ctx, addr, probe, timeout)
 			if perr != nil {
@@ -572,7 +580,11 @@ var (
 	// N1T (env VERIF_C14_N1T = off (default) | auto | on): fill ScanLock's lock_type from the MVCC debugger. Until fix F41
 	// mocktikv's ScanLock returned no lock_type, so BatchResolveLocks could not recognise pessimistic locks; filling it in
 	// the harness masked that (a stale-primary pessimistic lock then rolls back a committed transaction's secondary).
-	n1tActive         bool
+	n1tActive bool
+	// N1 / N3 (env VERIF_C14_N1, VERIF_C14_N3 = off (default) | auto | on; VERIF_C14_STRICT=1 = everything off): the gate applies
+	// ScanLock's window and limit / answers notify-only DeleteRange itself only when the start-up probe finds the store does not
+	n1Active          bool
+	n3Active          bool
 	mockScanLockTyped bool
 )
 
@@ -582,7 +594,7 @@ func newWorld(c *Case) (*world, error) {
 		return nil, err
 	}
 	storeID, _, _ := mocktikv.BootstrapWithSingleStore(cluster)
-	w := &world{cluster: cluster, rpc: rpc, storeID: storeID, inj: map[int][]string{}, pdInj: map[int][]string{}, splits: map[string]bool{}, n2: n2Active}
+	w := &world{cluster: cluster, rpc: rpc, storeID: storeID, inj: map[int][]string{}, pdInj: map[int][]string{}, splits: map[string]bool{}, n2: n2Active, n1: n1Active && !c.Raw}
 	for _, s := range c.Splits {
 		w.split(unhx(s))
 	}
@@ -765,6 +777,8 @@ func runCase(c *Case) *Result {
 			}
 		}
 		var subsMu sync.Mutex
+		var runner *rangetask.Runner
+		curRes, curSP := res, c.SP
 		switch c.Mode {
 		case "phase":
 			err = probe.GCResolveLockPhase(ctx, c.SP, c.Conc)
@@ -780,7 +794,8 @@ func runCase(c *Case) *Result {
 			resolver := tikv.NewRegionLockResolver("verif-gc", w.store)
 			handler := func(ctx context.Context, r kv.KeyRange) (st rangetask.TaskStat, err error) {
 				subsMu.Lock()
-				res.Subs = append(res.Subs, [2]string{hx(r.StartKey), hx(r.EndKey)})
+				curRes.Subs = append(curRes.Subs, [2]string{hx(r.StartKey), hx(r.EndKey)})
+				sp := curSP
 				subsMu.Unlock()
 				w.logEv(Event{T: "begin", S: hx(r.StartKey), E: hx(r.EndKey)})
 				// the client's own consistency panics (e.g. saveResolved: "status not equal to the cached one") must surface as a
@@ -790,11 +805,11 @@ func runCase(c *Case) *Result {
 						err = fmt.Errorf("panic in ResolveLocksForRange: %v", p)
 					}
 				}()
-				st, err = tikv.ResolveLocksForRange(ctx, resolver, c.SP, r.StartKey, r.EndKey, tikv.NewGcResolveLockMaxBackoffer, c.Limit)
+				st, err = tikv.ResolveLocksForRange(ctx, resolver, sp, r.StartKey, r.EndKey, tikv.NewGcResolveLockMaxBackoffer, c.Limit)
 				w.logEv(Event{T: "end", S: hx(r.StartKey), E: hx(r.EndKey)})
 				return st, err
 			}
-			runner := rangetask.NewRangeTaskRunner("verif-gc", w.store, c.Conc, handler)
+			runner = rangetask.NewRangeTaskRunner("verif-gc", w.store, c.Conc, handler)
 			if c.RPT > 0 {
 				runner.SetRegionsPerTask(c.RPT)
 			}
@@ -864,6 +879,38 @@ func runCase(c *Case) *Result {
 					rd.Res = "refused"
 				}
 				res.Late = append(res.Late, rd)
+			}
+		}
+		// second pass on the same store / lock resolver (status cache) / Runner object, after more leftovers were written
+		if runner != nil && len(c.Script2) > 0 && res.Err == "" {
+			res2 := &Result{Case: *c, Layout0: w.layout()}
+			res2.Case.ID += 100000
+			res2.Case.Class = "pass2"
+			res2.Case.SP, res2.Case.SP2 = c.SP2, 0
+			res2.Case.Script = append(append([]Op{}, c.Script...), c.Script2...)
+			res2.Case.Script2, res2.Case.Inj, res2.Case.PdInj, res2.Case.ReadTS = nil, nil, nil, nil
+			res.next = res2
+			if err := w.runScript(c.Script2); err != nil {
+				res2.SetupErr = err.Error()
+			} else {
+				w.mu.Lock()
+				w.events = nil
+				w.mu.Unlock()
+				res2.Pre = w.dump(c.Keys)
+				subsMu.Lock()
+				curRes, curSP = res2, c.SP2
+				subsMu.Unlock()
+				if err := runner.RunOnRange(ctx, unhx(c.S), unhx(c.E)); err != nil {
+					res2.Err = err.Error()
+				}
+				res2.Done = runner.CompletedRegions()
+				res2.Events = w.events
+				res2.Post = w.dump(c.Keys)
+				if locks, lerr := probe.ScanLocks(ctx, []byte{}, []byte{0xff, 0xff, 0xff}, math.MaxUint64); lerr == nil {
+					for _, l := range locks {
+						res2.Locks = append(res2.Locks, fmt.Sprintf("%s@%d", hx(l.Key), l.TxnID))
+					}
+				}
 			}
 		}
 	case "part":
@@ -1121,14 +1168,52 @@ func probeMock() map[string]interface{} {
 		}
 	}
 	out["raw_mock_gc_locks_left"] = left
+	// ScanLock limit: two locks, limit 1
+	must(w.runScript([]Op{
+		{Op: "prewrite", Key: hx([]byte("x1")), Primary: hx([]byte("x1")), Start: 8, Kind: "put", Val: hx([]byte("v"))},
+		{Op: "prewrite", Key: hx([]byte("x2")), Primary: hx([]byte("x1")), Start: 8, Kind: "put", Val: hx([]byte("v"))}}))
+	lreq := tikvrpc.NewRequest(tikvrpc.CmdScanLock, &kvrpcpb.ScanLockRequest{MaxVersion: 100, Limit: 1})
+	lresp, err := w.store.SendReq(bo, lreq, loc.Region, time.Second)
+	must(err)
+	limitHonoured := len(lresp.Resp.(*kvrpcpb.ScanLockResponse).Locks) == 1
+	out["scan_lock_honours_limit"] = limitHonoured
+	// notify-only DeleteRange must delete nothing
+	dreq := tikvrpc.NewRequest(tikvrpc.CmdDeleteRange, &kvrpcpb.DeleteRangeRequest{StartKey: []byte("p"), EndKey: []byte("pz"), NotifyOnly: true})
+	_, err = w.store.SendReq(bo, dreq, loc.Region, time.Second)
+	must(err)
+	notifyHonoured := len(w.dump([]string{hx([]byte("p"))})[0].Writes) > 0
+	out["delete_range_notify_only_honoured"] = notifyHonoured
+	strict := os.Getenv("VERIF_C14_STRICT") == "1"
+	mode := func(env string, needed bool) (bool, string) {
+		m := os.Getenv(env)
+		if strict {
+			m = "off"
+		}
+		switch m {
+		case "on":
+			return true, "on"
+		case "auto":
+			return needed, "auto"
+		}
+		return false, "off" // default since the mock honours the contract (fixes F42 / F43)
+	}
+	n1Active, out["n1_mode"] = mode("VERIF_C14_N1", !(out["scan_lock_honours_start_key"].(bool) && limitHonoured))
+	n3Active, out["n3_mode"] = mode("VERIF_C14_N3", !notifyHonoured)
+	out["n1_active"], out["n3_active"] = n1Active, n3Active
+	if strict {
+		n2Active, n1tActive = false, false
+		out["n2_active"], out["n1t_active"] = false, false
+	}
 	return out
 }
 
 // ---------------------------------------------------------------- generators
 
 type gen struct {
-	r  *rand.Rand
-	id int
+	r      *rand.Rand
+	id     int
+	tsBase uint64 // offset of the timestamps of the next population (second pass of a two-pass case)
+	tsEnd  uint64 // last timestamp used by the last population
 }
 
 var alphabet = []byte("abcdefgh")
@@ -1201,7 +1286,7 @@ func (g *gen) population(c *Case, keys []string, ntxn int) {
 		free[k] = true
 	}
 	h := func(k string) string { return hx([]byte(k)) }
-	ts := uint64(10)
+	ts := uint64(10) + g.tsBase
 	var starts []uint64
 	for i := 0; i < ntxn; i++ {
 		ts += uint64(3 + g.r.Intn(12))
@@ -1404,6 +1489,7 @@ func (g *gen) population(c *Case, keys []string, ntxn int) {
 		c.SP = starts[g.r.Intn(len(starts))] + uint64(g.r.Intn(3)) - 1
 	}
 	c.ReadTS = []uint64{c.SP, c.SP + 1, c.SP + 7, ts + 30, 1 << 40}
+	g.tsEnd = ts + 30
 }
 
 // every transaction: primary committed, every secondary left locked, all below the safe point
@@ -1479,6 +1565,25 @@ func (g *gen) gcCase(class string) *Case {
 		c.Splits = g.splits(g.r.Intn(4), keys)
 		c.Limit = uint32(1 + g.r.Intn(4))
 		g.commitSecPopulation(c, keys)
+	case "twopass": // two passes on one store: lock-resolver status cache, region cache and the Runner object survive
+		c.Limit = uint32(1 + g.r.Intn(4))
+		c.RPT = 1 + g.r.Intn(3)
+		if g.r.Intn(3) == 0 {
+			c.Conc = 2 + g.r.Intn(3)
+		}
+	case "rawscan": // the store's own ScanLock answers (no N1): only the property oracles apply
+		c.Raw = true
+		keys = g.keys(6 + g.r.Intn(12))
+		ntxn = 4 + g.r.Intn(8)
+		c.Splits = g.splits(g.r.Intn(5), keys)
+		c.Limit = uint32(1 + g.r.Intn(4))
+		if g.r.Intn(3) == 0 {
+			c.S, c.E = g.rangeOf(keys)
+			c.RPT = 1 + g.r.Intn(2)
+		}
+		if g.r.Intn(3) == 0 {
+			c.Inj = append(c.Inj, Inject{At: 1 + g.r.Intn(6), Key: hx([]byte(keys[g.r.Intn(len(keys))]))})
+		}
 	case "merge": // a region is MERGED with its right neighbour between ScanLock and ResolveLock (and splits elsewhere)
 		keys = g.keys(8 + g.r.Intn(10))
 		ntxn = 6 + g.r.Intn(8)
@@ -1542,11 +1647,36 @@ func (g *gen) gcCase(class string) *Case {
 		c.Barrier = c.SP - uint64(1+g.r.Intn(10))
 		c.ReadTS = append(c.ReadTS, c.Barrier, c.Barrier+1)
 	}
+	if class == "twopass" {
+		// a second population (later timestamps, other keys) written after the first pass; the second pass also meets the
+		// first population's locks that lay above the first safe point
+		in1 := map[string]bool{}
+		for _, k := range keys {
+			in1[k] = true
+		}
+		var keys2 []string
+		for _, k := range g.keys(6 + g.r.Intn(8)) {
+			if !in1[k] {
+				keys2 = append(keys2, k)
+			}
+		}
+		if len(keys2) >= 2 {
+			c2 := &Case{Class: class, Mode: "custom"}
+			g.tsBase = g.tsEnd + 20
+			g.population(c2, keys2, 2+g.r.Intn(6))
+			g.tsBase = 0
+			c.Script2, c.SP2 = c2.Script, c2.SP
+			if c.SP2 < c.SP {
+				c.SP2 = c.SP
+			}
+			keys = append(keys, keys2...)
+		}
+	}
 	ks := map[string]bool{}
 	for _, k := range keys {
 		ks[hx([]byte(k))] = true
 	}
-	for _, o := range c.Script {
+	for _, o := range append(append([]Op{}, c.Script...), c.Script2...) {
 		ks[o.Key] = true
 		if o.Primary != "" {
 			ks[o.Primary] = true
@@ -1740,7 +1870,9 @@ func main() {
 			if err := json.Unmarshal(line, &c); err != nil {
 				panic(err)
 			}
-			emit("RES", runCase(&c))
+			for r := runCase(&c); r != nil; r = r.next {
+				emit("RES", r)
+			}
 		}
 		return
 	}
@@ -1763,6 +1895,8 @@ func main() {
 		{func() *Case { return g.gcCase("split") }, 50},
 		{func() *Case { return g.gcCase("midsplit") }, 40},
 		{func() *Case { return g.gcCase("merge") }, 45},
+		{func() *Case { return g.gcCase("rawscan") }, 30},
+		{func() *Case { return g.gcCase("twopass") }, 30},
 		{func() *Case { return g.gcCase("commitsec") }, 25},
 		{func() *Case { return g.gcCase("stalepess") }, 45},
 		{func() *Case { return g.gcCase("conc") }, 30},
@@ -1782,7 +1916,9 @@ func main() {
 	}
 	for _, p := range plan {
 		for i := 0; i < p.n*scale; i++ {
-			emit("RES", runCase(p.f()))
+			for r := runCase(p.f()); r != nil; r = r.next {
+				emit("RES", r)
+			}
 		}
 	}
 }
